@@ -28,9 +28,13 @@ func c12Count(max int) (int, int) {
 // interpolation and inside a key. idx < 0 builds the template form.
 func c12Body(idx int, c any) map[string]any {
 	if idx < 0 {
-		return map[string]any{"v": "$repeat", "s": `$"x{$repeat}y"`, `$"k{$repeat}"`: 1, "c": c}
+		return map[string]any{"v": "$repeat", "s": `$"x{$repeat}y"`, `$"k{$repeat}"`: 1, "c": c,
+			// the index once more through a path reference to the field
+			// that holds the bare $repeat (value and key)
+			"w": `$"w{v}"`, `$"j{v}"`: 2}
 	}
-	return map[string]any{"v": idx, "s": fmt.Sprintf("x%dy", idx), fmt.Sprintf("k%d", idx): 1, "c": c}
+	return map[string]any{"v": idx, "s": fmt.Sprintf("x%dy", idx), fmt.Sprintf("k%d", idx): 1, "c": c,
+		"w": fmt.Sprintf("w%d", idx), fmt.Sprintf("j%d", idx): 2}
 }
 
 // HarnessC12_doc: document-level $repeat: n, map and list documents,
